@@ -922,21 +922,29 @@ class SyncObj(object):
                 if prevEntries[0][2] != prevLogTerm:
                     self.__sendNextNodeIdx(node, nextNodeIdx = prevLogIdx, success = False, reset=True)
                     return
-                if len(prevEntries) > 1:
+                # Entries that we already have (same index and term) are kept,
+                # our log is only truncated from the first conflicting entry.
+                existingEntries = prevEntries[1:]
+                numMatching = 0
+                while numMatching < len(newEntries) and numMatching < len(existingEntries) and \
+                        existingEntries[numMatching][2] == newEntries[numMatching][2]:
+                    numMatching += 1
+                entriesToAdd = newEntries[numMatching:]
+                if entriesToAdd and numMatching < len(existingEntries):
                     # rollback cluster changes
                     if self.__conf.dynamicMembershipChange:
-                        for entry in reversed(prevEntries[1:]):
+                        for entry in reversed(existingEntries[numMatching:]):
                             clusterChangeRequest = self.__parseChangeClusterRequest(entry[0])
                             if clusterChangeRequest is not None:
                                 self.__doChangeCluster(clusterChangeRequest, reverse=True)
 
-                    self.__deleteEntriesFrom(prevLogIdx + 1)
-                for entry in newEntries:
+                    self.__deleteEntriesFrom(prevLogIdx + 1 + numMatching)
+                for entry in entriesToAdd:
                     self.__raftLog.add(*entry)
 
                 # apply cluster changes
                 if self.__conf.dynamicMembershipChange:
-                    for entry in newEntries:
+                    for entry in entriesToAdd:
                         clusterChangeRequest = self.__parseChangeClusterRequest(entry[0])
                         if clusterChangeRequest is not None:
                             self.__doChangeCluster(clusterChangeRequest)
@@ -947,13 +955,18 @@ class SyncObj(object):
 
                 self.__sendNextNodeIdx(node, nextNodeIdx=nextNodeIdx, success=True)
 
+                # Only the entries up to the last one of this message are known to match the leader's log.
+                lastMatchingIdx = nextNodeIdx - 1
+                if min(leaderCommitIndex, lastMatchingIdx) > self.__raftCommitIndex:
+                    self.__raftCommitIndex = min(leaderCommitIndex, lastMatchingIdx)
+
             # Install snapshot
             elif serialized is not None:
                 if self.__serializer.setTransmissionData(serialized):
                     self.__loadDumpFile(clearJournal=True)
                     self.__sendNextNodeIdx(node, success=True)
 
-            if leaderCommitIndex > self.__raftCommitIndex:
+            if 'prevLogIdx' not in message and leaderCommitIndex > self.__raftCommitIndex:
                 self.__raftCommitIndex = min(leaderCommitIndex, self.__getCurrentLogIndex())
 
             self.__raftLog.setRaftCommitIndex(self.__raftCommitIndex)
